@@ -617,7 +617,7 @@ func main() {
 		Stubs: []string{"the caller that owns and reuses the storage (the role graph/search plays)"},
 		Plan: func(tier string) driver.Plan {
 			if tier == "thorough" {
-				return driver.Plan{Random: 1500000, WallLimit: 30 * time.Minute}
+				return driver.Plan{Random: 1000000, WallLimit: 40 * time.Minute}
 			}
 			return driver.Plan{Random: 40000, WallLimit: 5 * time.Minute}
 		},
